@@ -6,7 +6,9 @@ RULE = ("odometer enumeration (no randomness) of documents x callback programs. 
         "no action, so every program is counted once). Section full3: every tree with <= 3 elements, full per-element product. "
         "Section pat: every tree with 4 (thorough: 4 and 5) elements and depth <= 4, every name assignment x every program x "
         "16 attribute patterns x 9 text patterns (rotations of de Bruijn sequences: all ordered pairs on consecutive elements) "
-        "x 3 preambles. Section limits: nesting chains of depth 19..22 (default limit 20), 21..23 under max_depth=22, 1..4 "
+        "x 3 preambles. The preamble is a free digit for trees of <= 4 elements (quick: <= 2); for the largest trees of the "
+        "tier it is derived from the digit sum of the other digits, so that every (tree, names, program) still meets all three "
+        "preambles. Section limits: nesting chains of depth 19..22 (default limit 20), 21..23 under max_depth=22, 1..4 "
         "under max_depth 1/2, every tree <= 3 elements under max_depth 1/2, name length 255..258, 9..12 attributes, one end "
         "tag removed, each x every program. non-trivial = some reached element is skipped or read as body while it has child "
         "elements or a following sibling (the closing-tag search has to step over markup and the next sibling depends on where "
@@ -15,6 +17,7 @@ HARNESSES = [
     dict(name="xml", src=["xml.c"], variant="asan", deadline={"quick": 150, "thorough": 1500}),
 ]
 ASSUMPTIONS = [
+    "preamble x decoration is not a full product for 5-element trees (quick: 3- and 4-element trees): preamble follows the digit sum",
     "bounds: <= 5 elements (quick: 4), depth <= 4, names {a,ab,b}, attribute counts {0,1,2,10}, text {none,'x','x y'}; for 4 and 5 "
     "elements attributes/text follow 16 x 9 de Bruijn rotations instead of the full per-element product",
     "dialect (DESIGN section 6): explicit start and end tags only, empty element = <a></a>; self-closing tags are not generated",
